@@ -1442,3 +1442,133 @@ def check_C20(ctx: Ctx) -> None:
         sig = "C20-state-after-rejection" if (dirty and mraw.replace("~", "") == line and first_rej is not None) else None
         ctx.fail(f"stream corrupt after a rejected statement ({verdict})",
                  dict(request=req, response=line[:1500], referee=sline[:1200], want=want[:1200]), known=sig)
+
+
+# ---------------------------------------------------------------------------------------------
+# C17
+# ---------------------------------------------------------------------------------------------
+
+def _varint(n: int) -> bytes:
+    out = bytearray()
+    while True:
+        b = n & 0x7F
+        n >>= 7
+        if n:
+            out.append(b | 0x80)
+        else:
+            out.append(b)
+            return bytes(out)
+
+
+def _hostile(r) -> bytes:
+    """Structure-aware hostile streams."""
+    k = r.randrange(9)
+    opt = jelly.RdfStreamRow(options=jelly.RdfStreamOptions(physical_type=1, max_name_table_size=8, max_prefix_table_size=8,
+                                                           max_datatype_table_size=8, version=1))
+    if k == 0:  # huge declared table sizes
+        o = jelly.RdfStreamOptions(physical_type=r.choice([1, 2, 3]), max_name_table_size=r.choice([2**32 - 1, 2**31, 4097, 10**9]),
+                                   max_prefix_table_size=r.choice([0, 2**32 - 1]), max_datatype_table_size=r.choice([0, 2**32 - 1]), version=1)
+        return refenc.frames_to_bytes([jelly.RdfStreamFrame(rows=[jelly.RdfStreamRow(options=o)])], True)
+    if k == 1:  # huge declared frame length
+        body = jelly.RdfStreamFrame(rows=[opt]).SerializeToString()
+        return _varint(r.choice([2**40, 2**63 - 1, 2**64 - 1, 2**31, len(body) + 1])) + body
+    if k == 2:  # deep quoted-triple nesting
+        depth = r.choice([5, 50, 90, 97, 98, 99, 100, 101, 150, 400])
+        t = b"\x12\x01a\x32\x01b\x52\x01c"
+        for _ in range(depth):
+            t = b"\x12\x01a\x32\x01b\x62" + _varint(len(t)) + t
+        row = b"\x12" + _varint(len(t)) + t
+        body = jelly.RdfStreamFrame(rows=[opt]).SerializeToString() + b"\x0a" + _varint(len(row)) + row
+        return _varint(len(body)) + body
+    if k == 3:  # options rows in odd places / only empty frames / no frames
+        frames = [jelly.RdfStreamFrame() for _ in range(r.randint(0, 3))] + [jelly.RdfStreamFrame(rows=[jelly.RdfStreamRow(name=jelly.RdfNameEntry(id=1, value="x")), opt])]
+        return refenc.frames_to_bytes(frames[: r.randint(0, len(frames))], True)
+    if k == 4:  # huge length-delimited field inside a frame
+        return _varint(12) + b"\x0a" + _varint(2**35) + b"\x00" * 6
+    if k == 5:  # over-long varints
+        return bytes([0x80] * r.randint(1, 12)) + bytes([r.randint(0, 255) for _ in range(r.randint(0, 5))])
+    if k == 6:  # invalid UTF-8 in strings
+        body = b"\x0a" + _varint(6) + b"\x4a\x04\x12\x02\xff\xfe"
+        pre = jelly.RdfStreamFrame(rows=[opt]).SerializeToString()
+        return _varint(len(pre) + len(body)) + pre + body
+    if k == 7:  # entry ids near 2^32, references near 2^32
+        rows = [opt, jelly.RdfStreamRow(name=jelly.RdfNameEntry(id=r.choice([2**32 - 1, 2**31, 9]), value="x")),
+                jelly.RdfStreamRow(triple=jelly.RdfTriple(s_iri=jelly.RdfIri(name_id=2**32 - 1, prefix_id=2**32 - 1), p_bnode="b", o_bnode="c"))]
+        return refenc.frames_to_bytes([jelly.RdfStreamFrame(rows=rows[: r.randint(1, 3)])], True)
+    # unknown fields / groups / wrong wire types
+    junk = bytes([r.choice([0x0b, 0x0c, 0x13, 0x1b, 0x08, 0x0d, 0x09, 0x7a, 0x0a])]) + bytes([r.randint(0, 255) for _ in range(r.randint(0, 12))])
+    return _varint(len(junk)) + junk
+
+
+def check_C17(ctx: Ctx) -> None:
+    import os
+    import subprocess
+    import sys
+
+    r = ctx.rng("fuzz")
+    inputs = []
+    valid = []
+    for _ in range(ctx.n(40, 200)):
+        valid.append(refenc.build_valid_stream(r, gen.G(r), n_stmts=r.randint(1, 6))["bytes"])
+    n = ctx.n(1500, 15000)
+    for i in range(n):
+        k = r.random()
+        if k < 0.25:
+            b = bytes(r.getrandbits(8) for _ in range(r.choice([0, 1, 2, 3, 5, 8, 16, 40, 100])))
+            kind = "random"
+        elif k < 0.65:
+            b = bytearray(r.choice(valid))
+            for _ in range(r.randint(1, 4)):
+                m = r.random()
+                if m < 0.5 and b:
+                    b[r.randrange(len(b))] ^= 1 << r.randrange(8)
+                elif m < 0.7 and b:
+                    del b[r.randrange(len(b))]
+                elif m < 0.85:
+                    b.insert(r.randrange(len(b) + 1), r.getrandbits(8))
+                else:
+                    o = bytearray(r.choice(valid))
+                    a, c = r.randrange(len(b) + 1), r.randrange(len(o) + 1)
+                    b = b[:a] + o[c:]
+            b = bytes(b)
+            kind = "mutated"
+        else:
+            b = _hostile(r)
+            kind = "hostile"
+        inputs.append((kind, r.choice(["flat", "flat", "grouped"]), b))
+    # real code in a watchdogged subprocess with an address-space cap
+    cap = 3 << 30
+    payload = "".join(f"{e} {b.hex()}\n" for _, e, b in inputs)
+    here = os.path.dirname(os.path.abspath(__file__))
+    p = subprocess.run([sys.executable, os.path.join(here, "c17_worker.py"), str(cap)], input=payload, capture_output=True,
+                       text=True, cwd=here, timeout=1800, check=False)
+    lines = p.stdout.split("\n")
+    if lines and lines[-1] == "":
+        lines.pop()
+    if p.returncode != 0 or len(lines) != len(inputs):
+        k = len(lines)
+        bad = inputs[k] if k < len(inputs) else None
+        ctx.fail(f"the interpreter died (exit {p.returncode}) while parsing input #{k}",
+                 dict(entry=bad[1] if bad else None, bytes=bad[2].hex() if bad else None, stderr=p.stderr[-1500:]))
+        inputs = inputs[:k]
+    reqs, resp = [], []
+    base_rss = None
+    for (kind, entry, b), line in zip(inputs, lines):
+        out, rss, ms = line.rsplit("\t", 2)
+        rss, ms = int(rss), int(ms)
+        base_rss = rss if base_rss is None else base_rss
+        ctx.case((entry, b.hex()), len(b) > 2, sample=dict(kind=kind, entry=entry, bytes=b.hex()[:120], outcome=out[-60:]))
+        ctx.dist[f"kind:{kind}"] += 1
+        oc = out.rsplit(" ", 1)[-1]
+        ctx.dist["outcome:" + (oc if oc.startswith("!") or oc in ("end", "HANG") else "end")] += 1
+        if out == "HANG" or ms > 5000:
+            ctx.fail(f"parser did not terminate promptly ({ms} ms)", dict(entry=entry, bytes=b.hex()))
+        elif out.startswith("!!") or out == "!MemoryError":
+            ctx.fail(f"parser ended with {out}", dict(entry=entry, bytes=b.hex()))
+        elif rss - base_rss > 400_000:
+            ctx.fail(f"peak RSS grew by {(rss - base_rss) // 1024} MB", dict(entry=entry, bytes=b.hex()))
+            base_rss = rss
+        reqs.append(f"par {entry} 0 1 seek {b.hex()}" if b else f"par {entry} 0 1 seek")
+        resp.append(out)
+    ctx.extra["peak_rss_kb"] = max([int(line.rsplit("\t", 2)[1]) for line in lines] or [0])
+    ctx.corr("PARSE", reqs, resp)
